@@ -19,6 +19,7 @@ From Coq Require Import List NArith Permutation.
 From Wbxml Require Model.EncWbxml Model.EncXml.
 From Wbxml Require Import Model.TreeGraph Proofs.TreeGraphProofs.
 From Wbxml Require Import Model.TreeOwn Proofs.TreeOwnProofs Model.TreeReify Proofs.TreeReifyProofs.
+From Wbxml Require Import Proofs.TreeEmptyTextProofs.
 Import ListNotations.
 Local Open Scope N_scope.
 
@@ -305,3 +306,45 @@ Theorem C18_bytes_function_of_walk_xml : forall xopts xsub l g indent keep_ws c1
   EncXml.enc_xml l g indent keep_ws [reify_x xopts xsub (erase tr2)].
 Proof. exact bytes_function_of_walk_xml. Qed.
 Print Assumptions C18_bytes_function_of_walk_xml.
+
+(* --- a text of length 0 (Proofs/TreeEmptyTextProofs.v) -------------------------------------------------------- *)
+
+(* wbxml_tree_add_text(tree, parent, "", 0) right after a text sibling: the usual merge, which adds nothing — the
+   parent keeps ONE text child with the same content (the node object is the new one) *)
+Theorem C18_empty_text_after_text_is_a_merge : forall fuel t det F q ds cs0 m a mk,
+  Inv t det F -> find_l q F = Some (R q ds (cs0 ++ [R m (DText a) mk])) -> is_text ds = false ->
+  (fuel_of t <= fuel)%nat ->
+  exists t', add_text fuel t (Some q) [] = TOk (t', Some (fresh t)) /\
+             Inv t' det (replace_l q (R q ds (cs0 ++ [R (fresh t) (DText a) []])) F).
+Proof. exact empty_text_after_text. Qed.
+Print Assumptions C18_empty_text_after_text_is_a_merge.
+
+(* with no text sibling in front (first child, or after an element / CDATA / TREE node): an EMPTY TEXT NODE is created *)
+Theorem C18_empty_text_without_text_sibling_is_a_node : forall fuel t det F q ds cs,
+  Inv t det F -> find_l q F = Some (R q ds cs) -> is_text ds = false -> last_not_text cs = true ->
+  (fuel_of t <= fuel)%nat ->
+  exists t', add_text fuel t (Some q) [] = TOk (t', Some (fresh t)) /\
+             Inv t' det (replace_l q (R q ds (cs ++ [R (fresh t) (DText []) []])) F).
+Proof. exact empty_text_without_text_sibling. Qed.
+Print Assumptions C18_empty_text_without_text_sibling_is_a_node.
+
+(* ... which the encoders see: the element "has content".  The equivalent XML text <x></x> is parsed into an element
+   WITHOUT children, so for an element whose only child is an empty text node the bytes-equality clause of C18 does
+   not hold on the code as it is (WBXML: content bit and END; XML: <x></x> for <x/>): finding "empty-text-node" *)
+Theorem C18_empty_text_only_child_changes_the_walk : forall d,
+  events (Sh d [Sh (DText []) []]) = [EvOpen d true; EvOpen (DText []) false; EvClose (DText []) false; EvClose d true] /\
+  events (Sh d []) = [EvOpen d false; EvClose d false].
+Proof. exact empty_text_only_child_changes_the_walk. Qed.
+Print Assumptions C18_empty_text_only_child_changes_the_walk.
+
+(* wbxml_tree_add_xml_elt_with_attrs_and_text guards against it: text == NULL or len == 0 adds the element only *)
+Theorem C18_empty_text_wrapper_adds_no_child : forall fuel l t p name kvs,
+  add_xml_elt_with_attrs_and_text fuel l t p name kvs [] =
+  match add_xml_elt_with_attrs fuel l t p name kvs with
+  | TOk (t1, Some n) => TOk (t1, Some n)
+  | TOk (t1, None) => TOk (t1, None)
+  | TFail => TFail
+  | TStuck => TStuck
+  end.
+Proof. exact empty_text_wrapper_adds_no_child. Qed.
+Print Assumptions C18_empty_text_wrapper_adds_no_child.
